@@ -406,13 +406,23 @@ func Shards() int {
 // which it reads at Check time) for this process: the number of cases for the
 // tier divided over the shards, and a seed derived from VERIF_SEED and the
 // shard index. It returns the per-process case count.
+// Round is the index of the campaign round this process belongs to (the driver repeats a unit's
+// sharded campaign in fresh processes when the unit asks for "rounds"; every round gets other seeds).
+func Round() int {
+	n, _ := strconv.Atoi(os.Getenv("VERIF_ROUND"))
+	if n < 0 {
+		return 0
+	}
+	return n
+}
+
 func RapidSetup(quick, thorough int) int {
 	n := Pick(quick, thorough)
 	per := (n + Shards() - 1) / Shards()
 	if per < 1 {
 		per = 1
 	}
-	seed := uint64(Seed())*1000003 + uint64(Shard())*7919 + 1
+	seed := uint64(Seed())*1000003 + uint64(Shard())*7919 + uint64(Round())*15485863 + 1
 	_ = flag.Set("rapid.checks", strconv.Itoa(per))
 	_ = flag.Set("rapid.seed", strconv.FormatUint(seed, 10))
 	_ = flag.Set("rapid.nofailfile", "true")
